@@ -17,6 +17,18 @@ PROPS = {
         "modelled": ["u32 arithmetic as naturals with explicit wrap (release) / error (checked build)", "the `for`/`while` loops of enc_indices as fuel recursion (termination is theorem skipPi_terminates)"],
         "assumptions": [RFC_TABLES, "systematic constants: exhaustive over K = 0..56404; tuples: boundary-directed + random X per sampled Table-2 row, in a checked and an unchecked build"],
     },
+    "C11": {
+        "thm_modules": ["Rq.Thm.C11"],
+        "engines": [("kernels", "release"), ("kernels", "debug")],
+        "modelled": ["CPU instruction semantics (pshufb per 128-bit lane, srli_epi64, and/xor, masked move, bit extraction) modelled byte-wise from the vendor description", "alignment does not exist in the model (unaligned loads/stores only); swept by the correspondence run", "NEON kernels are not compiled for this host"],
+        "assumptions": ["runtime half (the silicon agrees with the modelled intrinsics; every alignment) is observed by the correspondence run on every path the host offers, not proved: labelled partial in DESIGN.md"],
+    },
+    "C12": {
+        "thm_modules": ["Rq.Thm.C12"],
+        "engines": [("kernels", "release"), ("kernels", "debug"), ("slab", "release"), ("slab", "debug")],
+        "modelled": ["accesses are (buffer, offset, width) triples produced by the same loop skeletons as the kernels; that the Rust pointer expressions are these offsets is validated by guard pages, not proved"],
+        "assumptions": ["every kernel operand of the correspondence run is placed flush against PROT_NONE guard pages (end-flush / start-flush / 64 offsets); a fault is reported with the exact case"],
+    },
     "C13": {
         "thm_modules": ["Rq.Thm.C13"],
         "engines": [("wire", "release")],
